@@ -149,6 +149,7 @@ def install():
     L.spawn_context = prims.SimContext
     M.spawn_context = prims.SimContext
     L.mt = prims.SimThreadingNS
+    M.mt = prims.SimThreadingNS           # (only used for annotations today; a lock added there must be simulated too)
     CM.mp = _MPShim(CM.mp)
     L.ProcessLine.__bases__ = (prims.SimProcess,)
     L.ThreadLine.__bases__ = (prims.SimThread,)
